@@ -304,6 +304,12 @@ def run_case(c, stats):
         for t in tags_of(ref):
             stats.cls("tag:" + t)
         L = ref.words(N)
+    kk = c["nv"] + len(c["prods"])
+    if kk % 3 == 0:
+        call(g.is_empty)                      # the grammar's own analyses run before the parser reads them
+    elif kk % 3 == 1:
+        call(g.get_generating_symbols)
+        call(g.get_reachable_symbols)
     ok, p = call(LLOneParser, g)
     if not ok:
         return False
